@@ -253,6 +253,24 @@ class PE:
             name = 'np.' + fn.attr
         if isinstance(fn, ast.Attribute) and fn.attr == 'astype' and not (isinstance(fn.value, ast.Name) and fn.value.id == 'np'):
             return self.ev(fn.value)            # elementwise: a cast does not change an integer that fits (the carrier is NumPy's business)
+        if name is None and isinstance(fn, ast.Attribute) and isinstance(fn.value, ast.Name) and fn.value.id == 'utils' \
+                and fn.attr in self.consts.get('__utils__', {}) and not e.keywords:
+            # a helper of fxpmath/utils.py: inlined elementwise (decorators such as np.vectorize lift it over arrays)
+            if self.depth > 6:
+                raise Untranslatable('helper calls nested too deep')
+            node = self.consts['__utils__'][fn.attr]
+            params = [p.arg for p in node.args.args]
+            args_ = [self.ev(a) for a in e.args]
+            if len(params) != len(args_):
+                raise Untranslatable('call of utils.%s with another signature' % fn.attr)
+            sub = self.fork(dict(zip(params, args_)))
+            sub.consts = dict(self.consts, __identity__=('int_array',))
+            sub.funcs = {}
+            sub.plain_return = True
+            r = sub.run(node.body, lenient=True)
+            if r is None:
+                raise Untranslatable('utils.%s does not return a value' % fn.attr)
+            return r
         if name is None and isinstance(fn, ast.Attribute) and isinstance(fn.value, ast.Name) and fn.value.id == 'self' \
                 and fn.attr in self.consts.get('__methods__', {}):
             name = 'self.' + fn.attr
@@ -262,6 +280,9 @@ class PE:
             return ('K', 'diag')
         if name in ('np.array', 'np.asarray') or name in self.consts.get('__identity__', ()):
             return self.ev(e.args[0])
+        if name == 'np.clip' and len(e.args) == 3 and not e.keywords:
+            a0, a1, a2 = (self.ev(x) for x in e.args)
+            return ('I', '(max %s (min %s %s))' % (to_lean_int(a1), to_lean_int(a2), to_lean_int(a0)))
         if name == 'np.where' and len(e.args) == 3:
             t = self.ev(e.args[0])
             if is_const(t):
@@ -455,7 +476,19 @@ class PE:
                         else:
                             for nm in stored:
                                 va, vb = a.env.get(nm), b.env.get(nm)
-                                same = va is not None and vb is not None and (va == vb or (self.let_term(va) is not None and self.let_term(va) == self.let_term(vb)))
+                                def res(v):
+                                    # the defining term of a value, following chains of let-bound names
+                                    if v is None or v[0] not in ('B', 'I'):
+                                        return None
+                                    term = v[1]
+                                    names = {ln: tm for ln, _, tm in self.lets}
+                                    for _ in range(50):
+                                        if term in names:
+                                            term = names[term]
+                                        else:
+                                            break
+                                    return term
+                                same = va is not None and vb is not None and (va == vb or (res(va) is not None and res(va) == res(vb)))
                                 if same:
                                     self.env[nm] = va
                                 elif nm.startswith('self.') and (va is not None or vb is not None):
@@ -893,6 +926,59 @@ def generate(repo=None):
                 raise Untranslatable('no integer result')
             return emit(lean_name, '(k lo hi : Int)', pe, r, '`utils.%s(x, val_min, val_max)` on one (integer) element' % fname)
         attempt(lean_name, fclip)
+
+    # ------------------------------------------------------------------------------------------ _overflow_action
+    if meth and ufuncs:
+        def fflags():
+            node = meth.get('_overflow_action')
+            if node is None:
+                raise Untranslatable('Fxp._overflow_action not found')
+            a = [p.arg for p in node.args.args]
+            pe = PE({'self': ('O', 'x'), a[1]: ('I', 'k'), a[2]: ('I', 'lo'), a[3]: ('I', 'hi')}, dict(consts, __identity__=('np.any',)), {})
+            found = {}
+
+            def walk(stmts, path):
+                for st in stmts:
+                    if isinstance(st, ast.If):
+                        touches = any(isinstance(n, ast.Subscript) and isinstance(n.ctx, ast.Store) and ast.unparse(n.value) == 'self.status' for n in ast.walk(st))
+                        if not touches:
+                            continue
+                        t = pe.ev(st.test)
+                        if is_const(t):
+                            walk(st.body if t[1] else st.orelse, path)
+                        else:
+                            walk(st.body, path + [to_lean_bool(t)])
+                            walk(st.orelse, path + ['(!%s)' % to_lean_bool(t)])
+                    elif isinstance(st, ast.Assign) and len(st.targets) == 1 and isinstance(st.targets[0], ast.Subscript) \
+                            and ast.unparse(st.targets[0].value) == 'self.status' and isinstance(st.targets[0].slice, ast.Constant):
+                        key = st.targets[0].slice.value
+                        if not (isinstance(st.value, ast.Constant) and st.value.value is True):
+                            raise Untranslatable('status[%r] is assigned something else than True' % key)
+                        cond = '(' + ' && '.join(path) + ')' if path else 'true'
+                        found[key] = cond if key not in found else '(%s || %s)' % (found[key], cond)
+            walk(node.body, [])
+            if set(found) != {'overflow', 'underflow'}:
+                raise Untranslatable('flags assigned: %s' % sorted(found))
+            return ('/-- the conditions under which `Fxp._overflow_action` raises `status[\'overflow\']` / `status[\'underflow\']` for one rounded element `k` -/\n'
+                    'def overflowFlags (k lo hi : Int) : Bool × Bool :=\n  (%s, %s)' % (found['overflow'], found['underflow']))
+        attempt('overflowFlags', fflags)
+
+        for mode in ('saturate', 'wrap'):
+            def fact(mode=mode):
+                node = meth.get('_overflow_action')
+                if node is None:
+                    raise Untranslatable('Fxp._overflow_action not found')
+                a = [p.arg for p in node.args.args]
+                c2 = dict(consts, __utils__=ufuncs, __identity__=('np.any',))
+                c2['self.config.overflow'] = mode
+                pe = PE({'self': ('O', 'x'), a[1]: ('I', 'k'), a[2]: ('I', 'lo'), a[3]: ('I', 'hi')}, c2, {})
+                pe.plain_return = True
+                r = pe.run(node.body, lenient=True)
+                if r is None or r[0] != 'I':
+                    raise Untranslatable('no integer result')
+                return emit('overflowAction_%s' % mode, '(xs : Bool) (xw xi xf : Int) (k lo hi : Int)', pe, r,
+                            "the value `Fxp._overflow_action` returns for one rounded element `k` when `config.overflow == '%s'`" % mode)
+            attempt('overflowAction_' + mode, fact)
 
     head = ('import FxpVerif.Model.Reduce\nimport Mathlib.Data.Int.Bitwise\n'
             '/-! # GENERATED by harness/srcgen.py from fxpmath/functions.py — do not edit\n'
